@@ -23,15 +23,15 @@ TABLE = {
     'C09': ('§6 C09', False, 'the collection merge loop equals the left fold of add over the sorted messages; strict stops at the first error with the prefix applied; non-strict skips exactly the failing messages with one MosMergeNonStrictWarning each', ''),
     'C10': ('§6 C10', False, 'sorting readers by numeric message ID is permutation-invariant for distinct IDs; the decimal parser is the numeric value; ties keep the supplied order (stable sort: C10_stable, C10_stable_determined)', ''),
     'C11': ('§6 C11', True, 'validate accepts iff non-empty, one roID, exactly one roCreate, at most one roDelete (exactly one unless incomplete allowed); every rejection is InvalidMosCollection', 'that python -O does not weaken the checks: differential execution in a -O subprocess'),
-    'C12': ('§6 C12', False, 'on well-formed running orders and schema-shaped messages the model never yields a built-in exception; well-formedness is preserved by merges so the statement composes along histories', ''),
+    'C12': ('§6 C12', False, 'for every running order that has a roCreate (whatever its stories, items and timing metadata look like) and every schema-shaped message the model never yields a built-in exception; a history invariant preserved by merges composes the statement along histories (a non-strict merge runs to the end); the value model of float() accepts only what Python\'s grammar accepts (pyFloat_ok_accepts)', ''),
     'C13': ('§6 C13', True, 'on the labelled-tree aliasing model: copies carry fresh labels, mutations of running-order objects cannot change a message, separation is invariant over every history of copy-inserting merges, and under separation the labelled run projects onto the value-level run', 'object identity in CPython (id()-disjointness monitor on the real code)'),
     'C14': ('§6 C14', True, 'character-level round trip: every tree with valid names and CR-free non-empty character data reads back from its serialisation as exactly itself (model lexer + tree builder); token-level round trip for any tree; escaping round trips; envelope invariant (running-order element count, message ID, at most one completion record) along every history; the running-order ID is kept by messages addressed to it', 'that ElementTree\'s parser reads the serialiser\'s output as the model\'s lexer does, and that str(ro) is byte for byte the model\'s serialisation: compared at every explored state; one open known finding (U+000D in character data, stdlib serialiser)'),
     'C15': ('§6 C15', False, 'on running orders whose stories/items have IDs and whose optional data is numeric/parseable, no accessor of the model raises; stories/items are listed in document order; every item field incl. the note (first studioCommand type=note at any depth) agrees with the document; absent data is None; the check also demands the C16 and C17 specifications (timing, script and body are read accessors too)', ''),
     'C16': ('§6 C16', False, 'duration precedence, running-order duration = sum, offsets = prefix sums by position (repeated story IDs or not), start/end derivations incl. zone designators, over exact microseconds (decimal durations with up to six decimals); the code\'s element-keyed offset dictionary equals the positional table whenever no story element occurs twice (C16_offsets_by_element, tied to C13\'s separation), and differs otherwise (counterexample theorem)', ''),
     'C17': ('§6 C17', False, 'body = paragraphs and items in document order; script = stripped non-empty non-bracketed paragraphs in order; running-order script/body = concatenation over stories', ''),
     'C18': ('§6 C18', True, 'paginated listing returns every key with the suffix across all pages (no empty page before a non-empty one); reader metadata is that of the restored object', 'real file I/O, bytes decoding, boto3 protocol: differential execution through an injected fake client'),
-    'C19': ('§6 C19', True, 'detect output is the per-file map of the library classification (order preserved, one bad file cannot affect another line); merge output is the serialisation of the library merge; exit codes (an outfile that cannot be opened is status 2)', 'argparse, real stdout/stderr, file writing: differential execution of mosromgr.cli.main in-process'),
-    'C20': ('§6 C20', False, 'exposed sources are exactly the IDs at the schema position, one element per ID, in order; a blank target is exposed as None; inspect lines are total on shaped messages', ''),
+    'C19': ('§6 C19', True, 'detect output is the per-file map of the library classification (order preserved, one bad file cannot affect another line); merge output is the serialisation of the library merge; exit codes (an outfile that cannot be opened, and no input at all, are status 2)', 'argparse, real stdout/stderr, file writing: differential execution of mosromgr.cli.main in-process'),
+    'C20': ('§6 C20', False, 'exposed sources are exactly the IDs at the schema position, one element per ID, in order; a blank target is exposed as None; inspect lines are total on shaped messages and on running-order documents (whatever their timing metadata) and mention every source / carried / listed story ID', ''),
 }
 
 
